@@ -1,5 +1,5 @@
 
-pub struct InfixOpManager {}
+#[verifier::external_body] pub struct InfixOpManager { x: u8 }     // opaque: an empty struct would make every handle equal, and a view that is a function of the handle could then never change
 pub uninterp spec fn lbp(op: Seq<char>) -> int;
 pub uninterp spec fn rbp(op: Seq<char>) -> int;
 // (to be discharged from the verified get_precidence + registry contract: l = 2p, r = 2p +- 1, p >= 1)
